@@ -118,6 +118,7 @@ BOUNDARY = ([k * PI / 4 for k in range(-8, 9)] + [k * PI / 8 for k in (-15, -9, 
             + [2 * PI - 1e-3, 2 * PI + 1e-3, -2 * PI + 1e-4, -2 * PI - 1e-6, 2 * PI - 1e-9, 4 * PI - 1e-3, -4 * PI + 1e-2, 4 * PI + 0.5]
             + [PI / 4 + 1e-7, PI / 4 - 1e-7, 3 * PI / 4 + 1e-13, PI / 2 - 1e-10, PI / 3, -2.2, 1.0])
 EPS_GRID = [1e-1, 3e-2, 1e-2, 1e-3, 1e-4, 1e-5, 1e-6, 1e-7, 3e-8, 1e-8]
+ODD_K = list(range(-15, 16, 2))      # odd multiples of pi/4 in (-4pi, 4pi)
 
 
 def gen_rs(rng, n):
@@ -130,6 +131,11 @@ def gen_rs(rng, n):
         cases.append({"fn": "rs", "gate": "RZ", "theta": PI / 3, "eps": eps})
     cases.append({"fn": "rs", "gate": "RZ", "theta": 0.3, "eps": 1e-4, "wire": 3})
     cases.append({"fn": "rs", "gate": "RZ", "theta": 1.234, "eps": 1e-5, "kw": {"max_search_trials": 1}})
+    # exact odd multiples of pi/4 over the whole period (-4pi, 4pi), both gate kinds: the half-angle is an exact odd
+    # multiple of pi/8 (closed-form branch of _domain_correction), and for 2pi < |phi| < 4pi it folds beyond pi
+    exact = [{"fn": "rs", "gate": g, "theta": k * PI / 4, "eps": 1e-4} for k in ODD_K for g in ("RZ", "PhaseShift")]
+    cases += exact
+    n += len(exact)          # the number (and stream) of random cases is unchanged
     while len(cases) < n:
         r = rng.random()
         th = rng.uniform(-2.2 * PI, 2.2 * PI) if r < 0.8 else rng.choice(BOUNDARY) + rng.choice([0, 1e-6, -1e-4, 1e-2]) * rng.random()
@@ -200,6 +206,12 @@ def gen_ct(rng, n, n_sk):
              {"fn": "ct", "ops": [["RZ", [0.7391], [0]]], "eps": 1e-3, "method": "gridsynth", "keep_cache": True},
              {"fn": "ct", "ops": [["RX", [1.1], [0]], ["CNOT", [], [0, 1]], ["RY", [2.2], [1]]], "eps": 1e-1, "method": "gridsynth"},
              {"fn": "ct", "ops": [["RX", [1.1], [0]], ["CNOT", [], [0, 1]], ["RY", [2.2], [1]]], "eps": 1e-4, "method": "gridsynth", "keep_cache": True}]
+    # exact odd multiples of pi/4 through the transform (negative angles are wrapped to [2pi, 4pi) and served by the
+    # adjoint of the decomposition of the wrapped angle); H .. H keeps the rotation from being merged away
+    exact = [{"fn": "ct", "ops": [["Hadamard", [], [0]], [g, [k * PI / 4], [0]], ["Hadamard", [], [0]]], "eps": 1e-4, "method": "gridsynth"}
+             for k in ODD_K for g in ("RZ", "PhaseShift")]
+    cases += exact
+    n += len(exact)          # the number (and stream) of random circuits is unchanged
     k = 0
     while len(cases) < n + n_sk:
         sk = k < n_sk - 1
@@ -379,7 +391,7 @@ def run(ctx):
                             if classify(it[1], it[6], it[5]) == "escape"][:12]
     ctx.coverage.update({
         "evaluations": len(terms), "distinct_nontrivial": stats["nontrivial_words"],
-        "rule": "corpus (all multiples of pi/4 and odd multiples of pi/8, tiny angles, angles near +-2pi/+-4pi, each at grid precisions 1e-1..1e-8) then seeded random angles in [-2.2pi,2.2pi] x precisions (grid or log-uniform 1e-8..1e-1) for rs (RZ/PhaseShift); sk on RZ/RX/RY/PhaseShift/Rot; random 1-3 wire circuits for the transform (every approximated gate checked); non-trivial = word containing T gates",
+        "rule": "corpus (all multiples of pi/4 in [-2pi,2pi], all odd multiples of pi/4 in (-4pi,4pi) for RZ and PhaseShift both directly and through the transform, odd multiples of pi/8, tiny angles, angles near +-2pi/+-4pi, each at grid precisions 1e-1..1e-8) then seeded random angles in [-2.2pi,2.2pi] x precisions (grid or log-uniform 1e-8..1e-1) for rs (RZ/PhaseShift); sk on RZ/RX/RY/PhaseShift/Rot; random 1-3 wire circuits for the transform (every approximated gate checked); non-trivial = word containing T gates",
         "input_distribution": hist, "transform": circ, "seconds": {"implementation": round(t_impl, 1), "coq_cases": round(t_coq, 1)},
         "enclosure_digits": DPS})
     for (c, kind, gate, params, eps, kw, o, tag) in items[:3] + items[-2:]:
